@@ -170,7 +170,7 @@ CHECKS = {
         engine="tlc-pipeline",
         technique="TLC model checking with every partial operation an explicit Abort action (Worker.tla, "
                   "Resolver/AlignCore) + fault-free exploration of degenerate CMAP inputs through the real "
-                  "pipeline (in process and CLI) with TLC comparing the ordinary queries' records (Trace_SameFiles)",
+                  "pipeline (in process and CLI) with TLC comparing the ordinary queries' records (Trace_SameFiles) + TLC trace validation (Trace_Seeding) of the real getInitialAlignment / refine on degenerate geometries (a call that raises where Seeding.tla has no named abort)",
         text="MC_Worker shows that the repaired worker never aborts when no peak is selected (and that the pinned "
              "one did); degenerate but valid CMAP sets (1-2 label molecules, duplicate positions, queries longer "
              "than every reference, 1-2 label references, inputs without alignable queries, dense/sparse molecules) "
@@ -359,7 +359,7 @@ def main():
              "kind_free_text": "MC_Compare, Trace_Compare; harness/props/c19.py"},
             {"name": "tlc-indels", "path": "spec/Indels.tla", "serves_properties": ["C20"],
              "kind_free_text": "MC_Indels, Trace_Indels; harness/props/c20.py"},
-            {"name": "tlc-seeding", "path": "spec/Seeding.tla", "serves_properties": ["C06", "C16"],
+            {"name": "tlc-seeding", "path": "spec/Seeding.tla", "serves_properties": ["C06", "C07", "C16"],
              "kind_free_text": "getInitialAlignment and refine as state machines in exact arithmetic; MC_Seeding, MC_Refine, Trace_Seeding; harness/props/seeding.py"},
             {"name": "tlc-worker", "path": "spec/Worker.tla", "serves_properties": ["C05", "C07", "C16"],
              "kind_free_text": "one action per dispatched message; MC_Worker, Trace_Worker (per-task event logs), spec/apalache/Apa_Worker.tla; harness/props/worker.py"},
